@@ -250,7 +250,7 @@ def one_case(rec, tap, rng, cid):
               "rms(fit - clean data) = %.3e > %.3e" % (rms, bound), case)
 
 
-def run_shard(rec, tier, seed, shard, nshards):
+def _run_shard(rec, tier, seed, shard, nshards):
     with fitlab.MinimizeTap() as tap:
         for i in range(N_CASES[tier]):
             one_case(rec, tap, core.case_rng(seed, ID, shard, i), [shard, i])
@@ -270,3 +270,11 @@ def replay(rec, case):
     with fitlab.MinimizeTap() as tap:
         one_case(rec, tap, core.case_rng(case["seed"], ID, cid[0], cid[1]),
                  cid)
+
+
+def run_shard(rec, tier, seed, shard, nshards):
+    state0 = core.library_state()
+    try:
+        _run_shard(rec, tier, seed, shard, nshards)
+    finally:
+        core.check_library_state(rec, state0, {"id": [shard, -1]})
